@@ -565,10 +565,22 @@ func c18sig(c *Ctx) {
 		// tolerance window evaluated (both comparisons false) before
 		win := 0
 		for _, e := range p.All(px.KindIs(px.EvBranch)) {
-			if e.Seq > hs[0].Seq || e.Cond.Kind != px.KBinOp || e.Cond.Op != token.LSS || e.Taken {
+			if e.Seq > hs[0].Seq || e.Cond.Kind != px.KBinOp {
 				continue
 			}
-			if dependsOn(p, e.Cond, symOfParam(p, tolP)) {
+			// canonical form "small <= big held on this path", whichever way the test is spelled
+			// (!(a < b), a >= b, b <= a, !(b > a)); inside the window the larger side is the one
+			// the tolerance was added to: now <= seconds+tol and seconds <= now+tol
+			var small, big *px.Sym
+			switch {
+			case (e.Cond.Op == token.LSS && !e.Taken) || (e.Cond.Op == token.GEQ && e.Taken):
+				small, big = e.Cond.Y, e.Cond.X
+			case (e.Cond.Op == token.GTR && !e.Taken) || (e.Cond.Op == token.LEQ && e.Taken):
+				small, big = e.Cond.X, e.Cond.Y
+			default:
+				continue
+			}
+			if b := big.Strip(true); b != nil && b.Kind == px.KBinOp && b.Op == token.ADD && dependsOn(p, big, symOfParam(p, tolP)) && !dependsOn(p, small, symOfParam(p, tolP)) {
 				win++
 			}
 		}
